@@ -39,6 +39,7 @@ fn main() {
     // Keep the real stdout for verdict lines; everything lace prints goes to /dev/null.
     let out_fd = unsafe { libc::dup(1) };
     let out = unsafe { std::fs::File::from_raw_fd(out_fd) };
+    isolate::REPORT_FD.store(out_fd as isize, std::sync::atomic::Ordering::Relaxed);
     let devnull_r = std::fs::File::open("/dev/null").unwrap();
     let keep_stderr = std::env::var("LACEMC_KEEP_STDERR").is_ok();
     unsafe {
@@ -48,6 +49,13 @@ fn main() {
         if !keep_stderr {
             libc::dup2(devnull_w, 2);
         }
+    }
+    // The VM's 128 KB memory images would otherwise be mmap()ed and munmap()ed on every session,
+    // which serialises all workers on the process's address-space lock.
+    unsafe {
+        libc::mallopt(libc::M_MMAP_THRESHOLD, 1 << 30);
+        libc::mallopt(libc::M_TRIM_THRESHOLD, 1 << 30);
+        libc::mallopt(libc::M_ARENA_MAX, 64);
     }
     std::env::set_var("NO_COLOR", "1");
     isolate::install_panic_hook();
@@ -71,6 +79,7 @@ fn main() {
             let scratch = verif_dir.join("target/scratch").join(format!("{}-{}", args[2], std::process::id()));
             let _ = std::fs::remove_dir_all(&scratch);
             std::fs::create_dir_all(&scratch).expect("scratch dir");
+            std::env::set_var("LACEMC_SCRATCH", &scratch);
             let ctx = Ctx {
                 property: args[2].clone(),
                 tier,
